@@ -415,6 +415,52 @@ def h_reference_units(eng):
         eng.prove(len(seen) == 1 and Eq(seen[0], r0), f"reference-units:{ret}:{ua},{ub}:dependent-argument-value")
 
 
+def h_keyword_only_and_decimal(eng):
+    """keyword-only parameters are checked like any other; a Decimal magnitude handed to a wrapped
+    function of a float registry arrives as the exact decimal product"""
+    import decimal
+
+    ureg = regs.float_default()
+    Qy = ureg.Quantity
+
+    @ureg.check("[length]", "[time]")
+    def speed(d, *, duration):
+        return d / duration
+
+    @ureg.check("[length]", "[time]", None)
+    def speed2(d, *, duration=Qy(1.0, "second"), note=None):
+        return d / duration
+
+    for label, fn, ok in (
+        ("kwonly-right", lambda: speed(Qy(1.0, "meter"), duration=Qy(2.0, "second")), True),
+        ("kwonly-wrong-dimension", lambda: speed(Qy(1.0, "meter"), duration=Qy(2.0, "kilogram")), False),
+        ("kwonly-bare-number", lambda: speed(Qy(1.0, "meter"), duration=2.0), False),
+        ("kwonly-default", lambda: speed2(Qy(1.0, "meter")), True),
+        ("kwonly-wrong-with-default-present", lambda: speed2(Qy(1.0, "meter"), duration=Qy(1.0, "gram")), False),
+        ("positional-wrong", lambda: speed(Qy(1.0, "second"), duration=Qy(2.0, "second")), False),
+    ):
+        try:
+            fn()
+            got = True
+        except DimensionalityError:
+            got = False
+        eng.prove(got == ok, f"check:{label}")
+    D = decimal.Decimal
+    seen = []
+
+    @ureg.wraps("=A", ("meter", "=A", "second"), strict=False)
+    def f(a, b, t=D("0")):
+        seen.append((a, b, t))
+        return b
+
+    r = f(Qy(D("3"), "centimeter"), Qy(D("250"), "millimeter"), t=Qy(D("250"), "millisecond"))
+    a, b, t = seen[0]
+    eng.prove(a == D("0.03") and str(a) == "0.03", "decimal-magnitude:plain-spec-exact")
+    eng.prove(b == D("250") and t == D("0.25") and str(t) in ("0.25", "0.250"), "decimal-magnitude:reference-and-keyword-exact")
+    eng.prove(r.magnitude == D("250") and str(r.units) == "millimeter", "decimal-magnitude:return")
+    eng.prove(str(Qy(D("3"), "centimeter").to("meter").magnitude) == "0.03", "decimal-magnitude:plain-conversion-exact")
+
+
 def h_array_defaults(eng):
     """a parameter whose default value is an array (or any object with element-wise ==) is
     filled in like any other default"""
@@ -580,6 +626,7 @@ def cases(tier, seed):
     out.append(Case("H17.wraps", "fraction-registry-exact", M, "h_exact_types", {}, kind="conc"))
     out.append(Case("H17.wraps", "reentrant", M, "h_reentrant", {}, validate=1))
     out.append(Case("H17.wraps", "array-defaults", M, "h_array_defaults", {}, kind="conc"))
+    out.append(Case("H17.check", "keyword-only-and-decimal", M, "h_keyword_only_and_decimal", {}, kind="conc"))
     out.append(Case("H17.wraps", "reference-units", M, "h_reference_units", {}, validate=1))
     out.append(Case("H17.obs", "observed", "pvlib.harness.observed", "h_c17", {}, kind="conc"))
     return out
